@@ -478,6 +478,23 @@ def translate(repo):
              [("l_" + a, "Z", None) for a in LOCAL_Z] + [("l_" + a, "F", None) for a in LOCAL_F]
     out.append(record_decl("kst", fields))
     out.append("")
+    # state algebra: every projection of every setter, setter absorption, and a canonical order of setters (all by computation);
+    # collected in the rewrite database `kst` so that proofs about the loops never unfold the 27-field record
+    names = [n for n, _, _ in fields]
+    alg, hints = [], []
+    for g in names:
+        for f in names:
+            rhs = "x" if f == g else f"{f} s"
+            alg.append(f"Lemma gs_{f}__{g} x (s : kst) : {f} (set_{g} x s) = {rhs}. Proof. reflexivity. Qed.")
+            hints.append(f"gs_{f}__{g}")
+        alg.append(f"Lemma ss_{g} x y (s : kst) : set_{g} x (set_{g} y s) = set_{g} x s. Proof. reflexivity. Qed.")
+        hints.append(f"ss_{g}")
+    for a_i, f in enumerate(names):
+        for g in names[a_i + 1:]:
+            alg.append(f"Lemma sw_{f}__{g} x y (s : kst) : set_{g} y (set_{f} x s) = set_{f} x (set_{g} y s). Proof. reflexivity. Qed.")
+            hints.append(f"sw_{f}__{g}")
+    out.append("\n".join(alg))
+    out.append("")
     # get_ivar
     _, body = grab_function(lines, r"^cdef void get_ivar\(double\[::1\] ivar, double s, double\[::1\] new_ivar\):")
     fn = to_python("get_ivar", ["ivar", "s", "new_ivar"], body)
@@ -524,6 +541,9 @@ def translate(repo):
     out.append(translate_prelude(lines, "test_likelihood_worker", r"^    cpdef test_likelihood_worker\(self, double\[::1\] chunk_row\):",
                                  r"ll = self\.likelihood_worker\((\d)\)", "test_worker_one", "row"))
     out.append("End Kernel.")
+    out.append("")
+    for k in range(0, len(hints), 40):
+        out.append("#[global] Hint Rewrite " + " ".join("@" + h for h in hints[k:k + 40]) + " : kst.")
     out.append("")
     # uniform entry points: Coq's section discharge keeps only the parameters a definition uses (which depends on the source);
     # these wrappers always take all seven
